@@ -85,7 +85,16 @@ PlainInit ==
                                                LinkFor(signers[i], signers[i] = who, kind, side))]
                          \o Ignored(ign), {})
 
-MCInit == (CoInit \/ PlainInit) /\ VInitRest
+\* a link file that carries a second functionary's signature as well, next to that functionary's OWN, dissenting
+\* file: each functionary's evidence is the file filed under his key
+CoSignedInit ==
+  \E filer \in {"k1", "k2"}, kind \in Kinds7 \ {"none"}, side \in {"mats", "prods"}, thr \in {2} :
+     LET other == IF filer = "k1" THEN "k2" ELSE "k1" IN
+     scn = Build(Layout(thr, <<"k1", "k2">>), Own("o1"),
+                 <<Entry(<< >>, "s1", filer, LinkD("s1", <<GoodSig(filer), GoodSig(other)>>, Base, Base)),
+                   Entry(<< >>, "s1", other, LinkFor(other, TRUE, kind, side))>>, {})
+
+MCInit == (CoInit \/ PlainInit \/ CoSignedInit) /\ VInitRest
 
 
 MCSpec == MCInit /\ [][VNext]_vars
